@@ -136,6 +136,9 @@ def subTracerDetached : Bool := Bpmn.Gen.C07.subProcessTracerDetached.getD true
 def current : List Kind := tableOf goRows opRows
 
 /-- goroutine sites that send traces without being registered senders -/
+def failingSenderBodies : List String :=
+  ((goRows.filter (fun g => g.sends && !g.registered)).map GoRow.body).eraseDups
+
 def failingSenders : List String :=
   (goRows.filter (fun g => g.sends && !g.registered)).map GoRow.site
 
